@@ -13,15 +13,16 @@ SPELLS = '{"time", "qtime", "Time", "TIME"}'
 
 
 def cfg(ctx, maxatoms=2, minatoms=None, maxt=3, bases="{2, 3}", offn=0, ops=ALLOPS, sides='{"L", "R"}', spells=SPELLS,
-        forms=_c10.ALLFORMS, mode="rot", nt=1, shapes=0, wins="{1, 2, 3, 5}", calls=3, topor=True, fixed=True):   # fixed=True: the repaired strip (committed in /repo)
-    return ("SPECIFICATION Spec\nCONSTANTS\n  EdgeMap = FALSE\n  FixedStrip = %s\n  MaxAtoms = %d\n  MaxT = %d\n  Bases = %s\n"
+        forms=_c10.ALLFORMS, mode="rot", nt=1, shapes=0, wins="{1, 2, 3, 5}", calls=3, topor=True, fixed=True,
+        paren=True, invariants="StepHolds PlainHolds NoGrowthInv NTAgree PrintFaithfulInv"):   # fixed=True: the repaired strip (committed in /repo)
+    return ("SPECIFICATION Spec\nCONSTANTS\n  EdgeMap = FALSE\n  FixedStrip = %s\n  ParenTopOr = %s\n  MaxAtoms = %d\n  MaxT = %d\n  Bases = %s\n"
             "  OffN = %d\n  Ops = %s\n  Sides = %s\n  Spells = %s\n  Forms = %s\n  DateBases = {2, 3}\n"
             "  FormMode = \"%s\"\n  NTLevel = %d\n  ShapeLevel = %d\n  Seed = %d\n  WinIds = %s\n  MaxCalls = %d\n  TopOr = %s\n"
             "  MinAtoms = %d\n"
-            "INVARIANTS StepHolds NoGrowthInv NTAgree PrintFaithfulInv\nCHECK_DEADLOCK FALSE\n"
-            % ("TRUE" if fixed else "FALSE", maxatoms, maxt, bases, offn, ops, sides, spells, forms, mode, nt, shapes,
+            "INVARIANTS %s\nCHECK_DEADLOCK FALSE\n"
+            % ("TRUE" if fixed else "FALSE", "TRUE" if paren else "FALSE", maxatoms, maxt, bases, offn, ops, sides, spells, forms, mode, nt, shapes,
                ctx.seed % 1000, wins, calls, "TRUE" if topor else "FALSE",
-               (maxatoms if minatoms is None else minatoms)))
+               (maxatoms if minatoms is None else minatoms), invariants))
 
 
 def run(ctx):
@@ -33,13 +34,22 @@ def run(ctx):
                 "window set; the design's SetTimeRange is model-checked against the property in every state; every "
                 "complete history is run on a real SelectStatement and validated step by step by the TLA+ judge "
                 "(selection through ConditionExpr + EvalBool at every grid point; node count; plain boolean reading of the "
-                "printed condition parsed back vs the condition held). Distinct = distinct "
+                "condition held, against the property and against the printed condition parsed back). Distinct = distinct "
                 "histories. Non-trivial = the initial condition has a time bound and the history has >= 2 calls.")
     ctx.assumptions = ["TLC 1.8 and the CommunityModules Json/CSV modules",
                        "harness/suite_c10.go maps symbolic instants to real timestamps and back",
                        "PrecOps!Reparse (validated by C03) as the model of print -> ParseExpr",
                        "residual truth is the real ValuerEval.EvalBool over a MapValuer",
                        "exhaustive only inside the stated alphabets and window sets"]
+    # pass M, vacuity: the design that joins a bare top-level OR without parentheses (the code before the
+    # repair adfd172) must violate the plain-reading property - TLC has to produce the counterexample
+    name = "Gen_c18_oldjoin.cfg"
+    open(ctx.path("spec", name), "w").write(cfg(ctx, maxatoms=1, mode="rot", nt=0, ops='{">="}', sides='{"L"}', calls=2,
+                                                 paren=False, invariants="PlainHoldsStrict"))
+    r = ctx.tlc("Gen_c18", name, env={"CASE_FILE": ctx.path("cases_oldjoin.ndjson")}, workers=1, expect_ok=False, timeout=600)
+    if not r.invariant_violated:
+        raise vp.Broken("pass M: the design with ParenTopOr = FALSE no longer violates PlainHoldsStrict:\n" + r.out[-2000:])
+    ctx.note("oldjoin: design with the unparenthesised join violates the plain reading, as expected (TLC counterexample, %.0fs)" % r.wall)
     parts = []
     if ctx.quick:
         # every single atom: all spellings x sides x forms x ops, bases 2 and 3; all 64 sequences of 3 windows
